@@ -714,6 +714,9 @@ pub unsafe extern "C" fn mmap(
         with_sim(|sim| {
             if ret != -1 {
                 sim.mappings.insert(ret as usize, (fd, off, len));
+                // the address range is in use again: no longer "unmapped"
+                let (a, b) = (ret as usize, ret as usize + len);
+                sim.unmapped.retain(|(x, l)| *x + *l <= a || *x >= b);
             }
             sim.events.push(KEv::Mmap {
                 fd,
